@@ -223,3 +223,8 @@ hfunc(H, 'FixedPoint.mult', ['self', 'b'], props=('C12',), refs=['self', 'b'], u
       ensures=['result.v == ((sxt(old(self.v), old(%s), old(%s) * 2) * sxt(old(b.v), old(%s), old(%s) * 2)) >> old(self.fw)) %% (1 << old(%s))'
                % ((_FXW('self'),) * 5),
                'result.sw == old(self.sw) and result.iw == old(self.iw) and result.fw == old(self.fw)'] + _NEW + _FX_KEPT)
+
+# FixedPoint.fromRawValue (static): a new object of the given format whose raw encoding is v, nothing else touched
+hfunc(H, 'FixedPoint.fromRawValue', ['sw', 'iw', 'fw', 'v'], props=('C12',), refs=[], uses=['new:FixedPoint/4'], uf_mod=True,
+      requires=[_FMT_OK('sw', 'iw', 'fw')], modifies=_FX_MOD + ['f:#alloc'],
+      ensures=['result.v == v', 'result.sw == sw and result.iw == iw and result.fw == fw'] + _NEW + _FX_KEPT)
